@@ -107,7 +107,7 @@ func runC10(e *Env) {
 		c.AddCloseCallback(func(Connection) error { x.cbRuns++; return nil })
 		all = append(all, x)
 		total := e.Pick(1, 20, 300, 5000)
-		closeMode := e.Intn(3) // 0 stay open until the end, 1 user close, 2 peer close
+		closeMode := e.Intn(4) // 0 stay open until the end, 1 user close, 2 peer close, 3 both
 		// reader of this connection
 		x.readerT = simrt.GoNamed(fmt.Sprintf("reader%d", g), false, func() {
 			for {
@@ -156,13 +156,15 @@ func runC10(e *Env) {
 					simrt.Sleep(int64(e.Pick(1, 3)) * 300000)
 				}
 			}
-			if closeMode == 2 {
-				x.closedBy = "peer"
+			if closeMode >= 2 {
+				if x.closedBy == "" {
+					x.closedBy = "peer"
+				}
 				vsys.HClose(x.peer)
 				x.peer = -1
 			}
 		})
-		if closeMode == 1 {
+		if closeMode == 1 || closeMode == 3 {
 			simrt.GoNamed(fmt.Sprintf("closer%d", g), false, func() {
 				simrt.Sleep(int64(e.Pick(0, 1, 3, 10)) * 300000)
 				x.closedBy = "user"
@@ -171,7 +173,13 @@ func runC10(e *Env) {
 			})
 		}
 		// let this generation live for a while, then go on: the next pair reuses what was released
-		simrt.WaitQuiescentFor(int64(e.Pick(1, 5, 50)) * int64(time.Millisecond))
+		// ... or, half of the time, the next one is opened while the poller is busy with this one
+		// (a slot released by a close can be handed to the new connection in the middle of a batch)
+		if e.Chance(1, 2) {
+			simrt.Sleep(int64(e.Pick(0, 1, 3, 10, 30)) * 100000)
+		} else {
+			simrt.WaitQuiescentFor(int64(e.Pick(1, 5, 50)) * int64(time.Millisecond))
+		}
 		for _, y := range all {
 			if y.closedBy == "peer" && !y.c.IsActive() && !y.closed {
 				// documented: a peer-closed connection without callbacks waits for the user's Close
@@ -497,6 +505,256 @@ func runC11(e *Env) {
 		e.Summary += fmt.Sprintf(" d%d{wrote=%d acked=%d hups=%d end=%s out=%v det=%v}", x.id, x.wrote, x.acked, x.hups, x.peerEnd, x.wantOut, x.userDet)
 	}
 	e.State = fmt.Sprint(nfds, len(active))
+	e.Teardown()
+	CheckLedger(e)
+}
+
+// ---------------------------------------------------------------------------------------------
+// c10_batch: the narrow window of slot reuse - a connection is closed by its user while events for
+// it are (about to be) fetched in one batch together with other events, and a new connection is
+// opened at the same moment. Few tasks and few steps, so that the schedule search can hit every
+// order of {close, slot recycled, slot handed out, stale event dispatched}.
+
+func init() {
+	registerScenario(&Scenario{Name: "c10_batch", Property: "C10", MaxSteps: 6000, Run: runC10Batch,
+		Desc: "one poller; connections A and X get input at the same instant (A's peer may close as well), A is closed by its user and a new connection B is opened concurrently; X and B are bystanders that must keep receiving and stay active"})
+}
+
+func runC10Batch(e *Env) {
+	faults := e.Chance(1, 4)
+	e.Setup(1, faults)
+	vsys.K.ReuseAdversary = false
+	a, peerA := e.NewPair(0)
+	aop, afd := a.operator, a.fd
+	type by struct {
+		name   string
+		c      *connection
+		peer   int
+		wrote  int
+		cb     int
+		stream int
+	}
+	// 1-3 bystanders whose input is ahead of A's in the batch, and the connection opened meanwhile
+	var bys []*by
+	for i := 0; i < 1+e.Intn(3); i++ {
+		c, p := e.NewPair(0)
+		y := &by{name: fmt.Sprintf("X%d", i), c: c, peer: p, stream: 201 + i}
+		c.AddCloseCallback(func(Connection) error { y.cb++; return nil })
+		bys = append(bys, y)
+	}
+	nb := &by{name: "B", peer: -1, stream: 220}
+	aClosedCB := 0
+	a.AddCloseCallback(func(Connection) error { aClosedCB++; return nil })
+	simrt.WaitQuiescentFor(1e9)
+	peerCloses := e.Chance(2, 3)
+	// steering (any timing of Close and of a new connection is legitimate; these two make the
+	// interesting ones likely): close A once an event for it has been fetched by the poller, open B
+	// once A's slot is back on the poller's free chain
+	closeAfterFetch := e.Chance(2, 3)
+	openAfterRecycle := e.Chance(2, 3)
+	onFreeChain := func() bool {
+		dp := pollmanager.polls[0].(*defaultPoll)
+		n := 0
+		for op := dp.opcache.first; op != nil && n < 100000; op, n = op.next, n+1 {
+			if op == aop {
+				return true
+			}
+		}
+		return false
+	}
+	closed, giveUp := false, false
+	f0 := vsys.Fetched(afd)
+	simrt.GoNamed("closer", false, func() {
+		if closeAfterFetch {
+			simrt.WaitUntil("an event of A fetched", func() bool { return vsys.Fetched(afd) > f0 || giveUp })
+		} else if e.Bool() {
+			simrt.Sleep(int64(e.Pick(0, 1, 2)) * 100000)
+		}
+		a.Close()
+		closed = true
+	})
+	simrt.GoNamed("opener", false, func() {
+		if openAfterRecycle {
+			simrt.WaitUntil("A's slot recycled", func() bool { return closed && (onFreeChain() || giveUp) })
+		} else if e.Bool() {
+			simrt.Sleep(int64(e.Pick(0, 1, 2)) * 100000)
+		}
+		nb.c, nb.peer = e.NewPair(0)
+		nb.c.AddCloseCallback(func(Connection) error { nb.cb++; return nil })
+		n, _ := PeerWriteAll(nb.peer, streamBytes(nb.stream, 0, e.Pick(1, 30)), func(r int) int { return r })
+		nb.wrote += n
+	})
+	if closeAfterFetch || openAfterRecycle {
+		// let the steered tasks reach their waits before anything happens
+		simrt.WaitQuiescentFor(1)
+	}
+	simrt.GoNamed("peers", false, func() {
+		if e.Bool() {
+			simrt.Sleep(int64(e.Pick(0, 1, 2)) * 100000)
+		}
+		for _, y := range bys {
+			n, _ := PeerWriteAll(y.peer, streamBytes(y.stream, 0, e.Pick(1, 30)), func(r int) int { return r })
+			y.wrote += n
+		}
+		PeerWriteAll(peerA, streamBytes(200, 0, e.Pick(1, 30)), func(r int) int { return r })
+		if peerCloses {
+			vsys.HClose(peerA)
+			peerA = -1
+		}
+		if e.Bool() {
+			y := bys[0]
+			n, _ := PeerWriteAll(y.peer, streamBytes(y.stream, y.wrote, e.Pick(1, 30)), func(r int) int { return r })
+			y.wrote += n
+		}
+	})
+	simrt.WaitQuiescentFor(2e9)
+	if nb.c == nil || !closed {
+		// the poller recycles slots after a batch only: with nothing further to dispatch the slot
+		// stays where it is, and the opener goes ahead without it
+		giveUp = true
+		simrt.WaitQuiescentFor(2e9)
+	}
+	e.nonTriv = true
+	slots := []*c10Conn{{id: 0, c: a, fd: afd, closed: true}}
+	for i, y := range append(bys, nb) {
+		if y.c == nil {
+			e.Fail("bystander-untouched", "opener-stuck", "the new connection was never opened; tasks=%v", simrt.TaskStates())
+			continue
+		}
+		slots = append(slots, &c10Conn{id: i + 1, c: y.c, fd: y.c.fd})
+		if !y.c.IsActive() || y.cb != 0 {
+			e.Fail("bystander-untouched", "bystander-closed", "connection %s was never closed by anybody and its peer is alive, but it is inactive (active=%v, close callbacks ran %d times): it received an event meant for the closed connection A", y.name, y.c.IsActive(), y.cb)
+			continue
+		}
+		if l := y.c.inputBuffer.Len(); l != y.wrote {
+			e.Fail("bystander-receives", "bystander-starved", "connection %s is open, its peer wrote %d bytes, %d are buffered", y.name, y.wrote, l)
+			continue
+		}
+		if p, err := y.c.Peek(y.wrote); err != nil || checkStream(y.stream, 0, p) >= 0 {
+			e.Fail("no-foreign-data", "foreign-data", "connection %s holds bytes its own peer never sent (err=%v)", y.name, err)
+		}
+	}
+	if aClosedCB != 1 {
+		e.Fail("callbacks-own", fmt.Sprintf("closecb-%d-times", aClosedCB), "the close callback of the closed connection ran %d times", aClosedCB)
+	}
+	checkSlots(e, slots)
+	e.Summary = fmt.Sprintf("bystanders=%d peerCloses=%v closeAfterFetch=%v openAfterRecycle=%v faults=%v", len(bys), peerCloses, closeAfterFetch, openAfterRecycle, faults)
+	e.State = fmt.Sprint(len(bys), peerCloses, closeAfterFetch, openAfterRecycle)
+	for _, y := range append(bys, nb) {
+		if y.c != nil {
+			y.c.Close()
+		}
+		if y.peer >= 0 {
+			vsys.HClose(y.peer)
+		}
+	}
+	if peerA >= 0 {
+		vsys.HClose(peerA)
+	}
+	simrt.WaitQuiescentFor(1e9)
+	e.Teardown()
+	CheckLedger(e)
+}
+
+func fdOf(c *connection) int {
+	if c == nil {
+		return -1
+	}
+	return c.fd
+}
+
+// ---------------------------------------------------------------------------------------------
+// c11_trigger: "Trigger wakes a blocked loop", under any number of concurrent Trigger callers.
+
+func init() {
+	registerScenario(&Scenario{Name: "c11_trigger", Property: "C11", MaxSteps: 8000, Run: runC11Trigger,
+		Desc: "the real defaultPoll loop; 1-4 tasks calling Trigger 1-3 times each at seeded instants (also while the loop is handling an earlier wake-up or socket input); afterwards, with the loop blocked, one more Trigger must be written to the wake-up descriptor and consumed by the loop"})
+}
+
+func runC11Trigger(e *Env) {
+	e.Setup(1, e.Chance(1, 4))
+	poll, err := openDefaultPoll()
+	if err != nil {
+		panic("harness: openDefaultPoll: " + err.Error())
+	}
+	loopDone := false
+	simrt.GoNamed("loop", false, func() {
+		poll.Wait()
+		loopDone = true
+	})
+	// optionally a socket whose input wakes the loop as well
+	peer, sock := -1, -1
+	got := 0
+	if e.Bool() {
+		a, b := vsys.HSocketpair()
+		peer, sock = b, a
+		op := poll.Alloc()
+		op.FD = a
+		buf := make([]byte, 64)
+		op.Inputs = func(vs [][]byte) [][]byte { vs[0] = buf; return vs[:1] }
+		op.InputAck = func(n int) error { got += n; return nil }
+		op.OnHup = func(p Poll) error { return nil }
+		if err := poll.Control(op, PollReadable); err != nil {
+			panic("harness: register: " + err.Error())
+		}
+	}
+	ntask := 1 + e.Intn(4)
+	calls := 0
+	for i := 0; i < ntask; i++ {
+		n := 1 + e.Intn(3)
+		simrt.GoNamed("trigger", false, func() {
+			for j := 0; j < n; j++ {
+				if e.Chance(1, 3) {
+					simrt.Sleep(int64(e.Pick(0, 1, 2)) * 100000)
+				}
+				poll.Trigger()
+				calls++
+			}
+		})
+	}
+	if peer >= 0 {
+		simrt.GoNamed("peer", false, func() {
+			for j := 0; j < 1+e.Intn(3); j++ {
+				vsys.HWrite(peer, []byte("x"))
+				if e.Bool() {
+					simrt.Sleep(int64(e.Pick(0, 1)) * 100000)
+				}
+			}
+		})
+	}
+	simrt.WaitQuiescentFor(1e9)
+	e.nonTriv = true
+	wfd := poll.wop.FD
+	if vsys.Readable(wfd) {
+		e.Fail("trigger-wakes", "trigger-not-consumed", "the poller's wake-up descriptor is readable at quiescence: a Trigger did not wake the loop")
+	}
+	// the loop is blocked now: every further Trigger has to reach it
+	for k := 0; k < 2; k++ {
+		w0, r0 := vsys.FDs[wfd].Written, vsys.FDs[wfd].Read
+		if err := poll.Trigger(); err != nil {
+			e.Fail("trigger-wakes", "trigger-error", "Trigger on an idle poller returned %v", err)
+		}
+		simrt.WaitQuiescentFor(1e9)
+		if vsys.FDs[wfd].Written == w0 {
+			e.Fail("trigger-wakes", "trigger-swallowed", "after %d concurrent Trigger calls the loop is blocked in epoll_wait and a further Trigger (probe %d) wrote nothing to the wake-up descriptor: the loop is not woken (and never will be)", calls, k)
+			break
+		}
+		if vsys.FDs[wfd].Read == r0 || vsys.Readable(wfd) {
+			e.Fail("trigger-wakes", "trigger-not-consumed", "a Trigger on the blocked loop was written but the loop did not wake up to consume it")
+			break
+		}
+	}
+	e.Summary = fmt.Sprintf("tasks=%d calls=%d socket=%v", ntask, calls, peer >= 0)
+	e.State = fmt.Sprint(ntask, calls, peer >= 0)
+	poll.Close()
+	simrt.WaitQuiescentFor(1e9)
+	if !loopDone {
+		e.Fail("close-ends-loop", "loop-not-ended", "Close of the poller did not end its loop")
+	}
+	if peer >= 0 {
+		vsys.HClose(peer)
+		vsys.HClose(sock)
+	}
 	e.Teardown()
 	CheckLedger(e)
 }
